@@ -297,14 +297,23 @@ CONFIG = {
         "level_text": "noncanonical_S_rejected, bad_shape_rejected, isReduced_spec (byte-wise comparison = numeric comparison), the constant L-1, and EdDSA "
                       "correctness in every prime-order module are Lean theorems about the executable RFC 8032 specification (arithmetic over Nat); fork, "
                       "specification and crypto/ed25519 are compared three ways on every generated input.",
-        "level_note": "PARTIAL: that the fork's limb arithmetic (scMulAdd/scReduce, field.Element) equals arithmetic mod L / mod p for every input is not proved; "
-                      "it is covered by the differential stream only: signatures/keys against crypto/ed25519, and — through hooks on the internal "
-                      "scalar arithmetic — structured limb patterns plus a bulk random search of 2^25 (quick) / 2^29 (thorough) 64-byte reductions "
-                      "against math/big. A limb-arithmetic defect that shows on fewer than about one input in 2^27 would not be found. "
+        "level_note": "The scalar limb arithmetic is proved: /verif/extract/cmd/sclimbs translates scReduce, scMulAdd, isReduced, the three Scalar "
+                      "constants and the Scalar methods that are one call of them from scalar.go into lean/PatVerif/Generated/ScLimbs.lean on every run "
+                      "(blocks of straight-line int64 code, each with generated no-overflow side conditions), and Proofs/ScReduce, Proofs/ScMulAdd*, "
+                      "Proofs/ScScalar prove, for all byte inputs, that no int64 operation overflows and that the 32 output bytes are the canonical "
+                      "little-endian encoding of the input mod L resp. (a·b+c) mod L, that Add/Subtract/Negate/Multiply/MultiplyAdd/SetBytes/"
+                      "SetUniformBytes are the corresponding residues, and that isReduced is exactly `< L`. The translated definitions are also "
+                      "executed (second driver, scdriver) on every scalar operation of the stream and compared with the Go code's output. "
+                      "PARTIAL for the rest: the field arithmetic (field.Element), the point formulas, the table-driven scalar multiplications "
+                      "and SetBytesWithClamping are not translated; they are covered by the differential stream only (signatures/keys against "
+                      "crypto/ed25519 and the Lean RFC 8032 model, and the bulk random search against math/big). "
                       "Public keys must be 32 bytes (documented precondition).",
         "trusted_base": COMMON_TB + ["crypto/ed25519 as the reference", "PatVerif/Exec/Ed25519 (validated differentially)"],
-        "assumptions": ["limb arithmetic refines Nat arithmetic (observed)"],
-        "extra_modules": ["PatVerif.Proofs.Sig", "PatVerif.Proofs.DER"],
+        "assumptions": ["field and point arithmetic refine arithmetic mod p (observed)",
+                        "Model/GoInt.lean reads Go's int64 +, -, *, <<, >>, & (2^j-1), | and byte() correctly where the generated side conditions hold"],
+        "extractors": [{"name": "sclimbs", "out": "ScLimbs.lean"}],
+        "aux_driver": {"exe": "scdriver", "ops": ["c14.screduce", "c14.scmuladd"]},
+        "extra_modules": ["PatVerif.Proofs.Sig", "PatVerif.Proofs.DER", "PatVerif.Proofs.ScReduce", "PatVerif.Proofs.ScMulAdd", "PatVerif.Proofs.ScScalar"],
         "contradicts": "PatVerif.Props.C14",
     },
     "C15": {
@@ -314,10 +323,15 @@ CONFIG = {
         "level_text": "blind_pk_spec (blinded key = key × SHA-512(blind‖0x00‖context)[0:32] mod L), determinism, blinded_signature_verifies, unblind_blind, "
                       "blind_comm, blind_changes_key are Lean theorems (algebra over any prime-order module); the executable reference computes the exact "
                       "bytes of blinded keys and signatures and must equal the fork's.",
-        "level_note": "Unblinding inverts blinding on the prime-order subgroup only (hypothesis n•A = 0); the limb arithmetic is not proved (see C14).",
+        "level_note": "Unblinding inverts blinding on the prime-order subgroup only (hypothesis n•A = 0). The scalar side of blinding — SetBytes of the "
+                      "digest's first 32 bytes (any 32 bytes, reduced mod L), Multiply, MultiplyAdd, ModInverse's inputs — is the translated and proved limb "
+                      "code of C14 (Generated/ScLimbs.lean, Proofs/ScScalar); field and point arithmetic are not proved (see C14).",
         "trusted_base": COMMON_TB + ["Mathlib", "PatVerif/Exec/Ed25519"],
-        "assumptions": ["A lies in the prime-order subgroup for unblind_blind"],
-        "extra_modules": ["PatVerif.Proofs.Group", "PatVerif.Proofs.Sig"],
+        "assumptions": ["A lies in the prime-order subgroup for unblind_blind",
+                        "Model/GoInt.lean reads Go's int64 operators correctly where the generated side conditions hold"],
+        "extractors": [{"name": "sclimbs", "out": "ScLimbs.lean"}],
+        "aux_driver": {"exe": "scdriver", "ops": ["c14.screduce", "c14.scmuladd"]},
+        "extra_modules": ["PatVerif.Proofs.Group", "PatVerif.Proofs.Sig", "PatVerif.Proofs.ScReduce", "PatVerif.Proofs.ScMulAdd", "PatVerif.Proofs.ScScalar"],
         "contradicts": "PatVerif.Props.C15",
     },
     "C16": {
